@@ -7,7 +7,118 @@ FUNCS = ['yalafi.utils.get_txt_pos_ml', 'yalafi.utils.ml_append_placeholder',
 # language token that heads every detached flow)
 MORE = [(['yalafi.parameters.Parameters.change_parser_lang',
           'yalafi.parameters.Parameters.lang_context_lang'],
-         ['contracts.c_externs', 'contracts.c_lang'])]
+         ['contracts.c_externs', 'contracts.c_lang']),
+        # the multi-language tail of tex2txt.tex2txt, lifted mechanically
+        (['yalafi.tex2txt.tex2txt.<ml_tail>'],
+         ['contracts.c_externs', 'contracts.c_utils', 'contracts.c_tex2txt',
+          'contracts.c_ml'])]
+
+
+def words_and_labels_bounded(seed):
+    """the sentence of the property on enumerated small documents: up to 4
+    pieces from a catalogue (words, short and long \\foreignlanguage,
+    \\selectlanguage, otherlanguage environments incl. two switches on one
+    line, a footnote, a paragraph break); every word of the document must
+    appear in exactly one returned part, and that part must carry the
+    language in force at the word according to a stack semantics computed
+    independently"""
+    import itertools
+    import re
+    from pyvc import replay as _r
+    t2t = _r.real_module('yalafi.tex2txt')
+    babel = _r.real_module('yalafi.packages.babel')
+    code = {k: babel.language_map[k] for k in ('english', 'german',
+                                               'french')}
+    counter = [0]
+
+    def w():
+        counter[0] += 1
+        return 'w' + 'abcdefghij'[counter[0] // 10 % 10] + \
+            'abcdefghij'[counter[0] % 10] + 'x'
+
+    def piece(kind, stack, out):
+        """-> source text; appends (word, language) to out"""
+        def words(k, lang):
+            ws = [w() for _ in range(k)]
+            out.extend((x, lang) for x in ws)
+            return ' '.join(ws)
+        if kind == 'W':
+            return words(1, stack[-1]) + ' '
+        if kind == 'Fs':
+            return '\\foreignlanguage{german}{%s} ' % words(2, 'german')
+        if kind == 'Fl':
+            return '\\foreignlanguage{french}{%s} ' % words(5, 'french')
+        if kind == 'Sde':
+            stack[-1] = 'german'
+            return '\n\\selectlanguage{german}\n'
+        if kind == 'Sen':
+            stack[-1] = 'english'
+            return '\n\\selectlanguage{english}\n'
+        if kind == 'O':
+            return ('\n\\begin{otherlanguage}{french}\n%s\n'
+                    '\\end{otherlanguage}\n' % words(2, 'french'))
+        if kind == 'OO':
+            return ('\n\\begin{otherlanguage}{german}\n%s\n'
+                    '\\end{otherlanguage}\\begin{otherlanguage}{french}\n'
+                    '%s\n\\end{otherlanguage}\n' % (
+                        words(2, 'german'), words(2, 'french')))
+        if kind == 'FN':
+            return '%s\\footnote{%s} ' % (words(1, stack[-1]),
+                                           words(2, stack[-1]))
+        if kind == 'P':
+            return '\n\n'
+    kinds = ['W', 'Fs', 'Fl', 'Sde', 'Sen', 'O', 'OO', 'FN', 'P']
+    n, fails = 0, []
+    for ln in range(1, 5):
+        for combo in itertools.product(kinds, repeat=ln):
+            h = sum((i + 1) * (kinds.index(k) + 3) for i, k in
+                    enumerate(combo)) + seed
+            if ln == 3 and h % 4:
+                continue
+            if ln == 4 and h % 60:
+                continue
+            counter[0] = 0
+            stack, exp = ['english'], []
+            body = 'wstartx '
+            exp.append(('wstartx', 'english'))
+            for k in combo:
+                body += piece(k, stack, exp)
+            src = '\\usepackage[german,french,english]{babel}\n' + body + \
+                ' ' + 'wendx\n'
+            exp.append(('wendx', stack[-1]))
+            n += 1
+            try:
+                ml = t2t.tex2txt(src, t2t.Options(lang='en-GB',
+                                                  pack='babel'),
+                                 multi_language=True)
+            except Exception as e:      # noqa
+                fails.append({'input': src, 'why': repr(e)})
+                continue
+            why = None
+            for word, lang in exp:
+                hits = [c for c, parts in ml.items() for p in parts
+                        if re.search(r'\b%s\b' % word, p[0])]
+                if len(hits) != 1:
+                    why = 'word %s appears in %d parts' % (word, len(hits))
+                    break
+                if hits[0] != code[lang]:
+                    why = 'word %s (language in force %s) is in a part ' \
+                        'labelled %s' % (word, code[lang], hits[0])
+                    break
+            if why:
+                fails.append({'input': src, 'why': why})
+                if len(fails) >= 3:
+                    break
+        if len(fails) >= 3:
+            break
+    return {'name': 'every-word-in-one-part-of-its-language',
+            'bounded': True,
+            'bound': 'all documents of 1-2 pieces, a 4th of those with 3 '
+                     'and a 60th of those with 4 pieces over 9 piece kinds',
+            'evaluations': n, 'failures': fails}
+
+
+QUICK_BOUNDED = [words_and_labels_bounded]
 
 
 def lemmas():
@@ -24,10 +135,11 @@ ASSUMPTIONS = [
     'NOT decided: that every surviving word lies in exactly one part, that the part carries the language in force, and that the '
     'parts together contain the words of the single-language run (summarised lists carry no order / partition information; '
     'the relational statement compares two runs)',
-    'the final loops of tex2txt (phrase replacement per part, conversion to 1-based positions) are not under contract: the '
-    'composition lemma of C01 is proved for multi_language=False only',
+    'the final loops of tex2txt (phrase replacement in the parts of the main language, conversion to 1-based positions) are '
+    'proved on the mechanically lifted tail of tex2txt.tex2txt (front.lift_ml_tail); the ghost "every part of every list of '
+    'the dictionary lies in range R" changes only at loop exits whose body contract is proved for the generic key / part',
 ]
-LEVEL_TEXT = ('Deductive proof for the section splitter: every section and every returned [text, map] part has len(text) == '
+LEVEL_TEXT = ('The tail of tex2txt.tex2txt for multi_language=True returns only parts with len(text) == len(map) and 1-based positions inside the source (phrase replacement keeps a part consistent, every list of every language goes through the +1 conversion exactly once). Deductive proof for the section splitter: every section and every returned [text, map] part has len(text) == '
     'len(map) and map entries inside the source (range preserved through merging of sections and through the placeholder of a '
     'short foreign insertion, whose characters take positions of the insertion itself); the language stack never becomes empty '
     '(so the label of a section always exists); the merge loop terminates (variant: number of remaining sections); wherever the text of one section is glued to another (A.txt += B.txt in get_txt_pos_ml) both carry the same language, so the words of B stay in a part of their language; the '
